@@ -470,36 +470,55 @@ pub fn free_port() -> u16 {
     const LO: u32 = 10_240;
     const BLOCK: u32 = 64;
     const NBLOCKS: u32 = 328;
+    /// a process owns at most this many blocks and goes round them (the listeners of earlier cases are closed
+    /// by then; a port that is still busy fails the bind probe and is skipped)
+    const MAX_HELD: usize = 24;
     struct Ports {
-        held: Vec<std::fs::File>,
-        base: u32,
+        held: Vec<(std::fs::File, u32)>,
+        cur: usize,
         pos: u32,
     }
     static STATE: Mutex<Option<Ports>> = Mutex::new(None);
     let mut guard = STATE.lock().unwrap();
-    let st = guard.get_or_insert_with(|| Ports { held: vec![], base: 0, pos: BLOCK });
+    let st = guard.get_or_insert_with(|| Ports { held: vec![], cur: 0, pos: BLOCK });
+    let mut misses = 0u32;
     loop {
         if st.pos >= BLOCK {
-            let _ = std::fs::create_dir_all("/tmp/verif-ports");
-            let start = std::process::id().wrapping_mul(131) % NBLOCKS;
             let mut claimed = None;
-            for i in 0..NBLOCKS {
-                let k = (start + i) % NBLOCKS;
-                let Ok(f) = std::fs::OpenOptions::new().create(true).write(true).truncate(false).open(format!("/tmp/verif-ports/block-{k}.lock")) else { continue };
-                if unsafe { libc::flock(f.as_raw_fd(), libc::LOCK_EX | libc::LOCK_NB) } == 0 {
-                    claimed = Some((f, k));
-                    break;
+            if st.held.len() < MAX_HELD {
+                let _ = std::fs::create_dir_all("/tmp/verif-ports");
+                let start = std::process::id().wrapping_mul(131) % NBLOCKS;
+                for i in 0..NBLOCKS {
+                    let k = (start + i) % NBLOCKS;
+                    let Ok(f) = std::fs::OpenOptions::new().create(true).write(true).truncate(false).open(format!("/tmp/verif-ports/block-{k}.lock")) else { continue };
+                    if unsafe { libc::flock(f.as_raw_fd(), libc::LOCK_EX | libc::LOCK_NB) } == 0 {
+                        claimed = Some((f, LO + k * BLOCK));
+                        break;
+                    }
                 }
             }
-            let Some((f, k)) = claimed else { common::machinery("no free block of loopback ports (too many harness processes at once)") };
-            st.held.push(f);
-            st.base = LO + k * BLOCK;
+            match claimed {
+                Some(c) => {
+                    st.held.push(c);
+                    st.cur = st.held.len() - 1;
+                }
+                None if st.held.is_empty() => common::machinery("no free block of loopback ports (too many harness processes at once)"),
+                None => st.cur = (st.cur + 1) % st.held.len(),
+            }
             st.pos = 0;
         }
-        let port = (st.base + st.pos) as u16;
+        let port = (st.held[st.cur].1 + st.pos) as u16;
         st.pos += 1;
         if std::net::TcpListener::bind(("127.0.0.1", port)).is_ok() {
             return port;
+        }
+        misses += 1;
+        if misses % 2048 == 0 {
+            // every port of every block is busy right now: wait for listeners to go away
+            std::thread::sleep(Duration::from_millis(20));
+        }
+        if misses > 2048 * 500 {
+            common::machinery("no bindable loopback port in this process's blocks for 10 s");
         }
     }
 }
